@@ -77,7 +77,7 @@ func constFact(i int64) dfact {
 }
 
 type dboundsEngine struct {
-	useBlk    *ssa.BasicBlock // block of the outermost query (where the value is finally used)
+	useBlk    *ssa.BasicBlock          // block of the outermost query (where the value is finally used)
 	fnSum     map[*ssa.Function]*dfact // summaries of other integer-valued functions (nil while being computed)
 	p         *Program
 	sizes     types.Sizes
